@@ -9,7 +9,9 @@ import (
 	"net"
 	"net/http"
 	"net/http/httptest"
+	"net/url"
 	"strconv"
+	"strings"
 	"sync"
 	"time"
 
@@ -19,6 +21,7 @@ import (
 	"google.golang.org/genproto/googleapis/rpc/errdetails"
 	"google.golang.org/grpc"
 	"google.golang.org/grpc/codes"
+	"google.golang.org/grpc/metadata"
 	"google.golang.org/grpc/status"
 	"google.golang.org/protobuf/proto"
 	"google.golang.org/protobuf/types/known/durationpb"
@@ -33,6 +36,10 @@ const (
 	oNonRetryable = "nonretryable" // any other failure response sent
 	oNetErr       = "neterr"       // connection torn down without a response
 	oAbandoned    = "abandoned"    // the client went away before the collector answered
+	// injected on the client side through the exporter's WithProxy option: the
+	// attempt fails inside http.Client.Do before anything is sent
+	oTempNetErr = "temporary_network_error" // error with Temporary() == true, Timeout() == false
+	oPermNetErr = "permanent_network_error" // error with Temporary() == false
 )
 
 // entry is one attempt in the collector's log. Times are offsets from the
@@ -47,6 +54,9 @@ type entry struct {
 	RespAt  time.Duration // taken immediately BEFORE the response is handed to the transport
 	Hint    time.Duration // server-supplied delay carried by the response (0 = none)
 	Desc    string
+	// HeaderMiss names a header configured with WithHeaders that the request
+	// did not carry ("" = all present).
+	HeaderMiss string
 }
 
 // collector is the scripted in-process OTLP receiver shared by the HTTP and
@@ -62,6 +72,9 @@ type collector struct {
 	log []*entry
 
 	done chan struct{} // closed on teardown: releases every held handler
+
+	wantHeaders map[string]string // configured with WithHeaders on the case's exporter
+	interf      []entry           // requests of the interfering exporter (role header), always answered with success
 
 	// hooks (called without the lock held)
 	onArrive  func(step int)
@@ -84,10 +97,18 @@ func (c *collector) snapshot() []entry {
 	return out
 }
 
-func (c *collector) arrive() (*entry, Step, bool) {
+const roleHeader = "x-c14-role" // set (to "interferer") only on the interfering exporter
+
+func (c *collector) arrive(header func(string) string) (*entry, Step, bool) {
 	t := c.now()
+	miss := ""
+	for k, v := range c.wantHeaders {
+		if header(k) != v && (miss == "" || k < miss) {
+			miss = k
+		}
+	}
 	c.mu.Lock()
-	e := &entry{Step: len(c.log), Arrive: t, Outcome: oPending}
+	e := &entry{Step: len(c.log), Arrive: t, Outcome: oPending, HeaderMiss: miss}
 	c.log = append(c.log, e)
 	c.mu.Unlock()
 	if c.onArrive != nil {
@@ -109,6 +130,59 @@ func (c *collector) responded(e *entry) {
 	if c.onRespond != nil {
 		c.onRespond(e.Step)
 	}
+}
+
+// proxyErr is what the scripted proxy function fails with.
+type proxyErr struct{ temporary bool }
+
+func (e proxyErr) Error() string {
+	if e.temporary {
+		return "c14: scripted temporary network error"
+	}
+	return "c14: scripted permanent network error"
+}
+func (e proxyErr) Temporary() bool { return e.temporary }
+func (e proxyErr) Timeout() bool   { return false }
+
+// proxy is handed to the HTTP exporters' WithProxy option. net/http calls it
+// once per round trip, on the exporting goroutine, before anything is sent: for
+// a proxy_* step the attempt is logged here and fails with the scripted error,
+// otherwise (nil, nil) = "no proxy" and the request goes to the collector.
+func (c *collector) proxy(*http.Request) (*url.URL, error) {
+	t := c.now()
+	c.mu.Lock()
+	i := len(c.log)
+	if i >= len(c.script) || (c.script[i].Kind != "proxy_temporary_error" && c.script[i].Kind != "proxy_permanent_error") {
+		c.mu.Unlock()
+		return nil, nil
+	}
+	e := &entry{Step: i, Arrive: t, RespAt: t, Outcome: oPermNetErr, Desc: "proxy function failed with a non-temporary error"}
+	if c.script[i].Kind == "proxy_temporary_error" {
+		e.Outcome, e.Desc = oTempNetErr, "proxy function failed with a Temporary() non-Timeout() error"
+	}
+	c.log = append(c.log, e)
+	c.mu.Unlock()
+	if c.onArrive != nil {
+		c.onArrive(i)
+	}
+	c.responded(e)
+	return nil, proxyErr{temporary: e.Outcome == oTempNetErr}
+}
+
+func (c *collector) interferer(body []byte, err error) {
+	e := entry{Arrive: c.now(), Body: body, BodySet: true, Outcome: oSuccess}
+	if err != nil {
+		e.BodyErr = err.Error()
+	}
+	c.mu.Lock()
+	c.interf = append(c.interf, e)
+	c.mu.Unlock()
+}
+
+func (c *collector) interferers() []entry {
+	c.mu.Lock()
+	defer c.mu.Unlock()
+	return append([]entry(nil), c.interf...)
 }
 
 func (c *collector) partialMsg(step int) string { return fmt.Sprintf("%s-k%d rejected", c.tag, step) }
@@ -153,8 +227,7 @@ func (c *collector) partialBody(step int, rejected int64) []byte {
 	return b
 }
 
-func (c *collector) ServeHTTP(w http.ResponseWriter, r *http.Request) {
-	e, st, ok := c.arrive()
+func readHTTPBody(r *http.Request) ([]byte, error) {
 	raw, rerr := io.ReadAll(r.Body)
 	body := raw
 	if rerr == nil && r.Header.Get("Content-Encoding") == "gzip" {
@@ -165,6 +238,18 @@ func (c *collector) ServeHTTP(w http.ResponseWriter, r *http.Request) {
 			body, rerr = io.ReadAll(zr)
 		}
 	}
+	return body, rerr
+}
+
+func (c *collector) ServeHTTP(w http.ResponseWriter, r *http.Request) {
+	if r.Header.Get(roleHeader) != "" {
+		c.interferer(readHTTPBody(r))
+		w.Header().Set("Content-Type", "application/x-protobuf")
+		w.WriteHeader(200)
+		return
+	}
+	e, st, ok := c.arrive(r.Header.Get)
+	body, rerr := readHTTPBody(r)
 	c.set(e, func(e *entry) {
 		e.Body, e.BodySet = body, true
 		if rerr != nil {
@@ -280,7 +365,18 @@ var detMarshal = proto.MarshalOptions{Deterministic: true}
 // serveGRPC handles one unary Export call. ok/partial build the two success
 // responses of the signal.
 func (c *collector) serveGRPC(ctx context.Context, req proto.Message, okResp func() any, partial func(rejected int64, msg string) any) (any, error) {
-	e, st, known := c.arrive()
+	md, _ := metadata.FromIncomingContext(ctx)
+	header := func(k string) string {
+		if v := md.Get(k); len(v) > 0 {
+			return v[0]
+		}
+		return ""
+	}
+	if header(roleHeader) != "" {
+		c.interferer(detMarshal.Marshal(req))
+		return okResp(), nil
+	}
+	e, st, known := c.arrive(header)
 	body, merr := detMarshal.Marshal(req)
 	c.set(e, func(e *entry) {
 		e.Body, e.BodySet = body, true
@@ -418,6 +514,65 @@ func (c *collector) startGRPC() (addr string, stop func(), err error) {
 		close(c.done)
 		srv.Stop()
 	}, nil
+}
+
+// payloadMarked reports whether every item name of the payload starts with mark.
+func payloadMarked(signal string, body []byte, mark string) bool {
+	names, err := payloadNames(signal, body)
+	if err != nil || len(names) == 0 {
+		return false
+	}
+	for _, n := range names {
+		if !strings.HasPrefix(n, mark+"-") {
+			return false
+		}
+	}
+	return true
+}
+
+// payloadNames decodes an export request and lists the item names (span name,
+// metric name, log body).
+func payloadNames(signal string, body []byte) ([]string, error) {
+	var out []string
+	switch signal {
+	case "trace":
+		var m coltracepb.ExportTraceServiceRequest
+		if err := proto.Unmarshal(body, &m); err != nil {
+			return nil, err
+		}
+		for _, rs := range m.ResourceSpans {
+			for _, ss := range rs.ScopeSpans {
+				for _, sp := range ss.Spans {
+					out = append(out, sp.Name)
+				}
+			}
+		}
+	case "metric":
+		var m colmetricpb.ExportMetricsServiceRequest
+		if err := proto.Unmarshal(body, &m); err != nil {
+			return nil, err
+		}
+		for _, rm := range m.ResourceMetrics {
+			for _, sm := range rm.ScopeMetrics {
+				for _, mt := range sm.Metrics {
+					out = append(out, mt.Name)
+				}
+			}
+		}
+	default:
+		var m collogpb.ExportLogsServiceRequest
+		if err := proto.Unmarshal(body, &m); err != nil {
+			return nil, err
+		}
+		for _, rl := range m.ResourceLogs {
+			for _, sl := range rl.ScopeLogs {
+				for _, lr := range sl.LogRecords {
+					out = append(out, lr.GetBody().GetStringValue())
+				}
+			}
+		}
+	}
+	return out, nil
 }
 
 // payloadItems decodes an export request of the signal and counts the
